@@ -109,6 +109,18 @@ def _notations(p):
     return None
 
 
+def check_notations(case):
+    p = tuple(case)
+    bad = _notations(p)
+    if bad:
+        return bad
+    P = Perm(p)
+    r = P.rank()
+    if r != ref.rank(p) or Perm.unrank(r) != P or Perm.unrank(ref.rank_in_length(p), len(p)) != P:
+        return BAD("rank_unrank_long", {"perm": list(p), "rank": r})
+    return OK(len(p) >= 8, f"notations_len{len(p)}")
+
+
 def check_big_rank(case):
     r, n, r_in = case["r"], case["n"], case["r_in"]
     P = Perm.unrank(r)
@@ -266,6 +278,7 @@ def check_mesh_level(case):
 
 CHECKS = {
     "level": check_level,
+    "notations": check_notations,
     "big_rank": check_big_rank,
     "standardise": check_standardise,
     "std_history": check_std_history,
@@ -382,6 +395,13 @@ def shard_levels(acc, shard, nshards, max_n):
 
 
 def shard_generated(acc, shard, nshards, n_rank, n_std, n_hist, n_val, n_mesh, filler):
+    # notations beyond the exhaustive lengths: every length 8..12, with the boundary length 10
+    # (the last one printed in compact digit form) drawn twice as often
+    lengths = st.sampled_from([8, 9, 10, 10, 11, 12])
+    engine.hyp_run(acc, "notations", check_notations, lengths.flatmap(gen.perm_of).map(list), max(20, n_rank // 2), shard)
+    for n in (8, 9, 10, 11, 12):
+        acc.record("notations", check_notations, list(range(n)))
+        acc.record("notations", check_notations, list(range(n - 1, -1, -1)))
     engine.hyp_run(acc, "big_rank", check_big_rank, big_rank_cases(), n_rank, shard)
     engine.hyp_run(acc, "standardise", check_standardise, seq_cases(), n_std, shard)
     engine.hyp_run(acc, "std_history", check_std_history, std_history_cases(filler), n_hist, shard)
